@@ -447,6 +447,45 @@ func Race(script string, timeoutSec int, specs []SolverSpec) QueryResult {
 	return last
 }
 
+// RaceQF races the full query on all solvers together with the quantifier-free rendering (fewer assumptions:
+// only its "unsat" means anything) on the first two solvers.
+func RaceQF(script, qf string, timeoutSec int, specs []SolverSpec) QueryResult {
+	ctx, cancel := context.WithCancel(context.Background())
+	defer cancel()
+	n := len(specs)
+	ch := make(chan QueryResult, n+2)
+	for _, sp := range specs {
+		go func(sp SolverSpec) { ch <- RunSolver(ctx, sp, script, timeoutSec) }(sp)
+	}
+	nq := 0
+	if qf != "" {
+		for i := 0; i < 2 && i < len(specs); i++ {
+			nq++
+			go func(sp SolverSpec) {
+				r := RunSolver(ctx, sp, qf, timeoutSec)
+				if r.Verdict != VUnsat {
+					r.Verdict = VUnknown
+				} else {
+					r.Solver += " (quantifier-free)"
+				}
+				ch <- r
+			}(specs[i])
+		}
+	}
+	var last QueryResult
+	last.Verdict = VUnknown
+	for i := 0; i < n+nq; i++ {
+		r := <-ch
+		if r.Verdict != VUnknown {
+			return r
+		}
+		if last.Raw == "" || len(r.Raw) > 0 {
+			last = r
+		}
+	}
+	return last
+}
+
 // OblResult is the verdict for one obligation (all its instances).
 type OblResult struct {
 	Name     string
@@ -569,13 +608,17 @@ type solveOut struct {
 func (x *Exec) solveJob(pcs [][]*Term, goals []*Term, opts DischargeOpts) solveOut {
 	t0 := time.Now()
 	// stage 0: quantifier-free attempt (quantified assumptions instantiated where possible, the rest dropped)
+	qfScript := ""
 	if qf := x.buildQueryOpt(pcs, goals, true, nil, true); os.Getenv("VCHECK_NOQF") == "" && !strings.Contains(qf, "(forall ") && !strings.Contains(qf, "(exists ") {
+		qfScript = qf
 		if r0 := RunSolver(context.Background(), Solvers[0], qf, opts.QuickTimeout); r0.Verdict == VUnsat {
 			raw := ""
 			if os.Getenv("VCHECK_DUMP") != "" {
 				raw = qf
 			}
 			return solveOut{VUnsat, r0.Solver + " (quantifier-free)", time.Since(t0), "", raw}
+		} else if os.Getenv("VCHECK_DUMPQF") != "" {
+			os.WriteFile(fmt.Sprintf("/tmp/vcheck_qf_%d.smt2", time.Now().UnixNano()), []byte("; qf verdict "+string(r0.Verdict)+"\n"+qf+"\n(get-model)\n"), 0o644)
 		}
 	}
 	script := x.buildQuery(pcs, goals, true, nil)
@@ -584,7 +627,7 @@ func (x *Exec) solveJob(pcs [][]*Term, goals []*Term, opts DischargeOpts) solveO
 		return solveOut{VUnknown, r.Solver, time.Since(t0), "", script + "\n; ---- not decided within the quick limit (listed known finding: no full-length attempt) ----"}
 	}
 	if r.Verdict == VUnknown {
-		r = Race(script, opts.FullTimeout, Solvers)
+		r = RaceQF(script, qfScript, opts.FullTimeout, Solvers)
 	}
 	if r.Verdict == VSat {
 		// confirm on the unsliced query (a dropped, contradictory component would make the path infeasible)
